@@ -18,6 +18,9 @@ Pool == <<
   T("@"), T("1 @ 2;"), T("\"abc"), T("/* open"), T("1 +;"), T("1 + 2"), T(") ;"), KW("VAR") \o T(" ") \o Builtin["len"] \o T(" = 1;"), T("1 = 2;"),
   T("zz;"), T("1 / 0;"), T("nil + 1;"), T("[1][5];"), Builtin["len"] \o T("(5);"), KW("BREAK") \o T(";"), KW("RETURN") \o T(" 1;"),
   KW("PRINT") \o T(" 1; zz; ") \o KW("PRINT") \o T(" 2;"), T("1; 1/0; 3;"),
+  KW("WHILE") \o T(" (") \o KW("TRUE") \o T(") { ") \o KW("PRINT") \o T(" zz; ") \o KW("BREAK") \o T("; }"),
+  KW("FOR") \o T(" (;;) { 1 / 0; }"), KW("WHILE") \o T(" (1) { nil(); }"),
+  KW("VAR") \o T(" i = 0; ") \o KW("WHILE") \o T(" (i < 3) { i = i + 1; i; }"),
   T(""), T("   "), T("// only a comment"), T("/* c */ 5;"),
   Builtin["len"] \o T(" = 0; ") \o Builtin["len"] \o T(";"), KW("VAR") \o T(" x = 1; x = zz; x;") >>
 
